@@ -333,7 +333,16 @@ def tg_cases(draw):
     a, b = draw(window_for([t["entries"] for t in spec["tiers"]], style, spec["maxT"]))
     if draw(st.integers(0, 5)) == 0:
         a, b = spec["minT"], spec["maxT"]  # the textgrid's own extent
-    return {"tg": spec, "a": a, "b": b, "mode": draw(st.sampled_from(MODES)), "rebase": draw(st.booleans())}
+    mode = draw(st.sampled_from(list(MODES) + ["lax"]))
+    if mode == "lax" and draw(st.booleans()):
+        # a window starting inside an interval of one tier (that tier's lax result starts before the window)
+        ivs = [e for t in spec["tiers"] if t["type"] == "interval" for e in t["entries"] if e[1] - e[0] > 0]
+        if ivs:
+            e = draw(st.sampled_from(ivs))
+            a2 = (e[0] + e[1]) / 2
+            if a2 < b:
+                a = a2
+    return {"tg": spec, "a": a, "b": b, "mode": mode, "rebase": draw(st.booleans())}
 
 
 CHECKS = [
@@ -344,7 +353,7 @@ CHECKS = [
           distinct_by_construction=True, doc="all point tiers of <=3 points on the half-integer grid"),
     Check("interval_random", run_tier_case, strategy=lambda tier: tier_cases(), quick_n=2000, thorough_n=30000,
           doc="random grid/decimal interval and point tiers"),
-    Check("textgrid_random", run_tg_case, strategy=lambda tier: tg_cases(), quick_n=700, thorough_n=12000,
+    Check("textgrid_random", run_tg_case, strategy=lambda tier: tg_cases(), quick_n=1000, thorough_n=12000,
           doc="Textgrid.crop over multi-tier textgrids"),
 ]
 
